@@ -226,8 +226,7 @@ def gen_case(rng, tier_big):
         L.append("L %d %s %d %s %s" % (rng.choice([0, 0, 1, 5]), gaps, rng.choice([0, 0, 2]), com, pre))
     for _ in range(rng.choice([0, 0, 1, 2])):
         L.append("R " + gen_filler(rng))
-    rng.random()
-    L.append("N 1")      # files whose last line lacks the newline hit the one-byte heap overflow of mps_input_buffer_next_token (C09): kept out of this tie
+    L.append("N %d" % (rng.random() < 0.8))
     perm_kind = rng.choice(["id", "degree-last", "random", "random"])
     if perm_kind == "id": L.append("P -")
     elif perm_kind == "degree-last": L.append("P 9,0,0,0,0,0")
@@ -490,7 +489,7 @@ def api_cases(ctx, h, n_cases, cov):
 
 
 def replay_witnesses(ctx, h, cov):
-    """the witnesses of the *_refuted theorems, on the real code"""
+    """the inputs on which the code used to store non-canonical / malformed results (now repaired), on the real code"""
     d = os.path.join(ctx.scratch, "wit"); os.makedirs(d, exist_ok=True)
     # C10_api_noncanonical_refuted: "0.5" -> 5/10
     p = os.path.join(d, "a.txt"); open(p, "w").write("1\n0\t0.5\tNULL\n1\t1\tNULL\n")
@@ -503,12 +502,12 @@ def replay_witnesses(ctx, h, cov):
         out["api 0.5 stored"] = res[0]["Q"].get(("c", 0), [None])[0]
         out["chebyshev 2/4 stored"] = res[1]["Q"].get(("c", 0), [None])[0]
         out["equiv(0.0)"] = res[2]["eq"]
-    cov["refuted_witnesses_on_real_code"] = out
+    cov["former_defect_witnesses_on_real_code"] = out
 
 
 def shipped_differential(ctx, h, cov):
     """model parser vs real parser on the .pol files shipped with the sources"""
-    root = os.path.join(ctx.snap("plain"), "src", "tests")
+    root = os.path.join(ctx.snap("san"), "src", "tests")
     files = []
     for sub in ("unisolve", "secsolve"):
         dd = os.path.join(root, sub)
@@ -615,7 +614,7 @@ def dedupe_violations(ctx):
 def run(ctx):
     dedupe_violations(ctx)
     ctx.prove()
-    h = ctx.compile_harness(["c10_parse.c"], "c10_parse", mode="plain")
+    h = ctx.compile_harness(["c10_parse.c"], "c10_parse", mode="san")
     if ctx.replay:
         return do_replay(ctx, h)
     rng = ctx.rng
